@@ -234,6 +234,13 @@ func (e *pipeEnd) Read(b []byte) (int, error) {
 			p.mu.Unlock()
 			return 0, os.ErrClosed
 		}
+		// as with a real os.File, an expired deadline fails the read even
+		// when data is waiting (poll.FD checks it before reading)
+		if !p.deadline.IsZero() && !time.Now().Before(p.deadline) {
+			p.mu.Unlock()
+			p.w.probe(pDeadlineWake)
+			return 0, os.ErrDeadlineExceeded
+		}
 		if len(p.buf) > 0 {
 			n := copy(b, p.buf)
 			if short && n > 1 {
@@ -248,11 +255,6 @@ func (e *pipeEnd) Read(b []byte) (int, error) {
 		if p.wClosed {
 			p.mu.Unlock()
 			return 0, io.EOF
-		}
-		if !p.deadline.IsZero() && !time.Now().Before(p.deadline) {
-			p.mu.Unlock()
-			p.w.probe(pDeadlineWake)
-			return 0, os.ErrDeadlineExceeded
 		}
 		if p.w.isDead() {
 			p.mu.Unlock()
